@@ -2,7 +2,11 @@
 
 HOOK_COMMITS = [
     "9ad3cc6",  # ByteRangeLockSet.VerifEntries
+    "de55c5c",  # scheduler enter/leave tracer + VerifSnapshot
 ]
+
+# harness packages compiled by bin/setup (those of the registered checks)
+SETUP_PACKAGES = ["brl", "sched", "buildclient"]
 
 NOT_APPLICABLE = {}
 
@@ -17,4 +21,28 @@ CHECKS = {
         "note": _NOTE,
         "technique": "TLA+ reference model + TLC trace validation of real-code traces (random + exhaustive small-domain enumeration)",
     },
+}
+
+_SCHED_TECH = "TLA+ snapshot predicates (SchedPreds) + trace specification (SchedTrace) validated by TLC on traces of the real InMemoryBuildQueue driven as a deterministic scheduler of its critical sections; design model Sched.tla model-checked with the same predicates"
+_SCHED_NOTE = "Trusted: TLC 1.8, the Go toolchain, the harness (gates at bq.enter, fake clock/streams/CAS/analyzer, projection of the raw snapshot to labelled records), the verif hook that exports the raw scheduler state under its lock. The drivers bound the exploration: <= 3 workers, <= 3 clients, 4-6 actions, invocation paths of depth 2, priorities that are multiples of 100 (exact score comparison), ~100-step schedules; design model Sched.tla exhaustive only for its small configurations."
+
+
+def _sched(text):
+    return {"text": text, "design_ref": "DESIGN.md sections 2 and 14", "note": _SCHED_NOTE, "technique": _SCHED_TECH}
+
+
+CHECKS.update({
+    "C01": _sched("Every critical section of the real scheduler ends with an exported snapshot; TLC evaluates C01_Inv (each live task queued in exactly one size-class queue or held by exactly one worker, bidirectional links, nothing stray queued) on every snapshot, and the step rules (execute replies name the assigned task, completed tasks never change or restart) on every Synchronize reply, for seeded random interleavings of Execute/WaitExecution/Synchronize/Kill/Drain/Terminate/cancel/clock moves, hand-written corner scenarios and queue-order histories. The same predicate is an invariant of the design model Sched.tla."),
+    "C02": _sched("Every message sent on every (fake) client stream and every stream return is logged in order with the snapshot it was built from; TLC checks: nothing after done, stages only advance except the retry fall-back, the final message equals the task's result, every task result is either the accepted worker's response or a scheduler-made status whose stated cause really holds in the pre-state (worker overdue, all operations abandoned and overdue, retry limit reached, operator kill, queue removed), streams that return OK got exactly one done message, and at quiescent points no stream is parked although its task changed stage (lost wake-up)."),
+    "C03": _sched("TLC checks on every snapshot that no two live cacheable tasks share an action digest, and on every Execute section that a request for an in-flight cacheable action attaches to the existing task (no new task, existing task undisturbed), that do_not_cache requests always create a task, and that final messages of all attached streams equal the task's single result; scenario background-run-vs-dedup reproduces the repaired defect F5."),
+    "C04": _sched("Reference model of the documented policy in SchedTrace.tla (AllowedAt: direct operations first by priority/expected duration/age, else child with lowest (executing+1)*2^(priority/100), ties to the least recently served, per-level stickiness windows; HandOffOK: direct hand-off to the most closely related waiting worker) evaluated on the state the scheduler chose from (end-of-section snapshot with the chosen task put back); plus the state invariant that nothing is queued while an undrained worker of the queue waits. Not decided: priorities that are not multiples of 100 and exact score ties between different priorities (floating point in the implementation)."),
+    "C05": _sched("On every Execute section TLC recomputes the longest registered instance-name prefix with equal platform from the snapshot and compares queue, size class (as selected by the scripted analyzer) and instance-name suffix of the created task; rejections must carry UNAVAILABLE before and FAILED_PRECONDITION after the start-up grace period; every assignment step is checked against the worker's drained/terminating flags and queue; retried tasks must land on the largest size class of the same platform queue."),
+    "C06": _sched("Cleanup rules as step predicates over consecutive snapshots (overdue workers/operations/queues are gone and their tasks failed with the documented code, nothing is removed before its time-out, time-outs are armed at now+configured value, retry limit), quiescence predicates (no Synchronize/stream/TerminateWorkers call parked while its wake-up condition holds) and the final predicate after every trace's drain phase (all actors gone, clock past every time-out: no operations, tasks, invocations, workers, dynamic queues, cleanup entries; lock free)."),
+})
+
+CHECKS["C08"] = {
+    "text": "BuildClient.tla follows BuildClient.Run() line by line (plus executor goroutine, update channel, scheduler/clock/shutdown environment, LaunchWorkerThread's termination rule); TLC checks the C08 predicates exhaustively for 2 digests, every scheduler reply, executors with 0-3 updates, readiness failures and shutdown at any point. The real BuildClient runs inside testing/synctest with a scripted OperationQueueClient, a gated executor and a fake clock: TLC-simulated behaviours are replayed on it, and seeded random environments (around a loop equivalent to LaunchWorkerThread and around the real LaunchWorkerThread) are recorded; BuildClientTrace.tla evaluates the predicates on every logged line.",
+    "design_ref": "DESIGN.md section 3 (C08)",
+    "note": _NOTE + " The scheduler is assumed to forget a worker one minute after the last next_synchronization_at (the code's own rule); executors honour cancellation.",
+    "technique": "TLA+ model of Run() checked by TLC; spec->code replay of simulated behaviours and code->spec trace validation",
 }
